@@ -9,6 +9,8 @@ pub mod util;
 pub mod c37;
 #[cfg(kani)]
 pub mod c23;
+#[cfg(kani)]
+pub mod c22;
 
 // written by `./check <id> --replay <file>` (Kani concrete playback of a recorded counterexample)
 #[cfg(all(kani, test))]
